@@ -285,8 +285,11 @@ class CircuitCompositeOperation(ICircuitCompositeOperation):
         if relation_transfer_lookup is None:
             relation_transfer_lookup = {}
 
-        # Iterate through nodes and rebuild circuit composite
-        for node in self._circuit_graph.get_node_iterator():
+        # Iterate through nodes and rebuild circuit composite.
+        # Nodes are processed in order of creation: a (multi-)relation link only refers to operations that were added
+        # earlier, while the relation-depth order lists a shallow reference node after a deeper dependent operation
+        # (its reference would not be known to the lookup yet and get lost).
+        for node in sorted(self._circuit_graph.get_node_iterator(), key=lambda _node: _node.identifier):
             operation_copy = node.operation.copy(relation_transfer_lookup=relation_transfer_lookup)
             # Keep track of copied operations for relation transfer
             relation_transfer_lookup[node.operation] = operation_copy
